@@ -119,6 +119,10 @@ def mkErr (kind : String) (ue : URLError) : Option Err :=
   match kind with
   | "nil" => some .nil
   | "url" => some (.urlError ue)
+  -- a top-level `*url.Error` whose `Err` is itself a `*url.Error` (same / different URL text):
+  -- for the model the inner error is the opaque identity `err`, which must come back unchanged
+  | "nested" => some (.urlError ue)
+  | "nesteddiff" => some (.urlError ue)
   | "urlnil" => some .urlErrorNilPtr
   | "wrap" => some (.wrapped 1 ue)
   | "join" => some (.wrapped 2 ue)
